@@ -255,12 +255,13 @@ IdInfo(n, before) ==
        IN IF IsNull(fr) THEN inner
           ELSE [before |-> inner.before,
                 out |-> << [name |-> fr.name, before |-> before, vis |-> NonWs(FlowText(n)) # <<>>,
-                            ign |-> Ignored(n)] >> \o inner.out]
+                            ign |-> Ignored(n), el |-> n.n] >> \o inner.out]
 \* markers of the output in reading order with the number of letters emitted before each
 MarkersOf(res) ==
   FoldLeft(LAMBDA a, x : IF IsFrag(x) THEN [a EXCEPT !.out = Append(@, [name |-> x[3][1][2], before |-> a.n])]
                          ELSE IF IsLetterCode(x[1]) THEN [a EXCEPT !.n = @ + 1] ELSE a,
            [n |-> 0, out |-> <<>>], Concat(res.lines)).out
+NestedTables(dom) == LET ns == NodesSeq(dom) IN \E i \in 1..Len(ns) : IsHtml(ns[i], "table") /\ HasTable(ns[i].c)
 P_C14(c) ==
   (c.runs[1].route \notin {"lines", "staged_lines", "restaged_lines"}) \/
   LET a == c.runs[1]
@@ -281,6 +282,11 @@ P_C14(c) ==
        \* position: after all text preceding the element, not after its first visible character
        /\ tableFree => \A i \in 1..Len(ids) : \A j \in 1..Len(ms) :
                            (ids[i].vis /\ ms[j].name = ids[i].name
+                            /\ Cardinality({q \in 1..Len(ids) : ids[q].name = ids[i].name}) = 1) => ms[j].before = ids[i].before
+       \* a table row starts on a line of its own whatever the layout: the marker of a <tr> stands before the
+       \* first character of the row in reading order (tables inside table cells are read interleaved: left out)
+       /\ (~tableFree /\ ~NestedTables(dom)) => \A i \in 1..Len(ids) : \A j \in 1..Len(ms) :
+                           (ids[i].vis /\ ids[i].el = "tr" /\ ms[j].name = ids[i].name
                             /\ Cardinality({q \in 1..Len(ids) : ids[q].name = ids[i].name}) = 1) => ms[j].before = ids[i].before
        \* document order (outside tables): the markers of the ids with visible content appear in the
        \* order of their elements (pre-order), also when several sit at the same place
@@ -752,7 +758,12 @@ ColourOK(c, run) ==
      IF HasTable(Dom1(c, run)) THEN BagOf(obs) = BagOf(exp) ELSE obs = exp
 P_C19(c) == \A i \in 1..Len(c.runs) : ColourOK(c, c.runs[i])
 \* C09 in full: element annotations by nesting, and CSS colours by the cascade (cases that carry sheets)
-P_C09(c) == IF "css" \in DOMAIN c.meta THEN \A i \in 1..Len(c.runs) : ColourOK(c, c.runs[i]) ELSE P_C09_nesting(c)
+\* ... and the continuation flag of preformatted text on the documents of the C12 family (one <pre> block,
+\* meta.pw): every cell flagged, pieces that start a source line not continuation, overflow pieces continuation
+P_C09_pre(c) == \A i \in 1..Len(c.runs) : IsOk(c.runs[i]) => LET p == C12Parts(c, c.runs[i]) IN p.tagsWeak /\ p.tagsStrict
+P_C09(c) == IF "css" \in DOMAIN c.meta THEN \A i \in 1..Len(c.runs) : ColourOK(c, c.runs[i])
+            ELSE IF "pw" \in DOMAIN c.meta THEN P_C09_pre(c)
+            ELSE P_C09_nesting(c)
 P_C20(c) == \A i \in 1..Len(c.runs) : ColourOK(c, c.runs[i])
 
 (* ---- C18: display:none hides exactly the matched subtrees --------------------------------------------- *)
